@@ -75,6 +75,22 @@ Theorem C06_late_value_refused : forall ch v H,
   ch_rx (gch ch H) = false -> chan_send ch v H = (false, note B_SendClosed H).
 Proof. exact send_to_closed_refused. Qed.
 
+(* Dropping cancelled work reaches everything below it, at any nesting depth: a drop starts with fuel dfuel H
+   (2 per command in the table, plus 2); under the order invariant - which every state of a directly driven command
+   and of an app under a Core satisfies - more fuel changes nothing, i.e. the recursion through hosting futures and
+   the commands they host never stops early.  (No constant bounds the nesting depth in the model.) *)
+From Crux Require Rt.EvictHost Rt.DropFuel.
+Theorem C06_drop_of_a_command_never_runs_out_of_fuel : forall n x H,
+  EvictHost.OrdH H -> drop_cmd (n + dfuel H) x H = drop_cmd (dfuel H) x H.
+Proof. exact DropFuel.drop_cmd_fuel_suffices. Qed.
+Theorem C06_drop_of_a_future_never_runs_out_of_fuel : forall n fs H,
+  EvictHost.OrdH H -> drop_fs (n + dfuel H) fs H = drop_fs (dfuel H) fs H.
+Proof. exact DropFuel.drop_fs_fuel_suffices. Qed.
+(* ... and dropping never adds a task to any command *)
+Theorem C06_drop_adds_no_task : forall fuel cid H c t,
+  EvictHost.tasks_of (gcmd c (drop_cmd fuel cid H)) t -> EvictHost.tasks_of (gcmd c H) t.
+Proof. intros fuel cid H c t. apply (DropFuel.Rna_drop_cmd fuel cid H c t). Qed.
+
 (* The trace predicate that the check evaluates on the implementation holds of EVERY trace of the
    model: for every command, every schedule (late and repeated resolutions, drops, further aborts, tasks
    spawned onto the aborted command, any number of inspections) and every positive fuel, once the
